@@ -104,7 +104,7 @@ func (Scenario) Generate(rng *rand.Rand, focus, tier string) kernel.Plan {
 			add("advance", 12)
 		}
 		for k := 0; k < 3; k++ {
-			add("send", rng.Int63n(nc), rng.Int63n(4), rng.Int63n(3), rng.Int63n(16), rng.Int63n(5), rng.Int63n(7), 1+rng.Int63n(3), rng.Int63n(6)+7*rng.Int63n(6))
+			add("send", rng.Int63n(nc), rng.Int63n(4), rng.Int63n(3), rng.Int63n(16), rng.Int63n(5), rng.Int63n(8), 1+rng.Int63n(3), rng.Int63n(6)+7*rng.Int63n(6))
 		}
 		for k := 0; k < 4; k++ {
 			add("pump", b)
@@ -183,7 +183,7 @@ func (Scenario) Generate(rng *rand.Rand, focus, tier string) kernel.Plan {
 		}
 		switch k {
 		case "send":
-			call := rng.Int63n(7)
+			call := rng.Int63n(8)
 			if focus == "C17" && kernel.Chance(rng, 0.5) {
 				call = 3 // call data that drives the staking system contract and fails natively
 			}
